@@ -248,6 +248,30 @@ def tableCase (toks : List String) : String :=
     | none => "bad-op"
   | _ => "bad-op"
 
+/-! ### part iterator -/
+
+def searchCase (toks : List String) : String :=
+  match toks with
+  | [tid, ids] =>
+    match searchPBM ((splitOn' ids ",").map nat!) (nat! tid) with
+    | some k => toString k
+    | none => "PANIC"
+  | _ => "bad-op"
+
+def parsePBlocks (s : String) : List (List PBlock) :=
+  (splitOn' s "|").map fun pb => (splitOn' pb ",").map fun b =>
+    match b.splitOn ":" with
+    | [t, c] => (nat! t, nat! c)
+    | _ => (0, 0)
+
+def partCase (toks : List String) : String :=
+  match toks with
+  | [q, layout] =>
+    let (out, panicked) := readPart (parsePBlocks layout) ((splitOn' q ",").map nat!)
+    if panicked then "PANIC"
+    else if out.isEmpty then "-" else ",".intercalate (out.map fun (t, c) => s!"{t}:{c}")
+  | _ => "bad-op"
+
 def handle (line : String) : String :=
   match words line with
   | "gr" :: rest => guardCase rest {}
@@ -255,6 +279,8 @@ def handle (line : String) : String :=
   | "dt" :: rest => trackerCase rest
   | "ch" :: rest => chainCase rest
   | "tb" :: rest => tableCase rest
+  | "sp" :: rest => searchCase rest
+  | "pb" :: rest => partCase rest
   | _ => "bad-op"
 
 def main : IO Unit := runDriver handle
